@@ -23,13 +23,19 @@ def ext(*keys, contract="total"):
     return deco
 
 
+def _short_self(t):
+    head, lt, rest = t.partition("<")
+    return head.rsplit("::", 1)[-1] + lt + rest
+
+
 def xkeys(callee, target):
-    """candidate registry keys for a call, most specific first"""
+    """candidate registry keys for a call, most specific first.  Inherent methods are keyed
+    crate:SelfType::method (the impl index in the def path is not stable)."""
     ks = []
     for c in (target, callee):
         d = c["def"]
         if "{impl#" in d and c.get("impl_self"):
-            ks.append(c["impl_self"] + "::" + d.rsplit("::", 1)[1])
+            ks.append("%s:%s::%s" % (c.get("krate") or d.split("::", 1)[0], _short_self(c["impl_self"]), d.rsplit("::", 1)[1]))
         ks.append(d)
     return ks
 
@@ -691,6 +697,12 @@ def p_many_m_n(I, st, pv, inp, ctx):
     return do_many_m_n(I, st, pv.args[0], pv.args[1], pv.args[2], inp, ctx)
 
 
+@ext("nom::traits::InputLength::input_len")
+def h_input_len(I, st, callee, target, args, ctx):
+    v = deref(I, st, args[0])
+    return [(st, VInt(64, False, lin=input_len_key(I, st, v)))]
+
+
 EXT["__parser__"] = apply_parser
 EXT["__default__"] = dispatch
 EXT["__stub__"] = stub
@@ -802,6 +814,11 @@ def vec_cap(I, t):
     for g in t["args"]:
         if "const" in g and isinstance(g["const"], int):
             return g["const"]
+        if "const" in g and isinstance(g["const"], str):
+            ge = I.genv_stack[-1] or {}
+            v = ge.get(g["const"])
+            if v is not None and isinstance(v.get("const"), int):
+                return v["const"]
     return None
 
 
@@ -822,6 +839,11 @@ def default_of(I, ty):
         return VSlice(("empty",), Lin.const(0), Lin.const(0))
     if t["k"] == "adt" and t["def"] in ("alloc::vec::Vec", "heapless::vec::Vec"):
         et = I.f.types[t["args"][0]["ty"]]
+        if et["k"] == "param":
+            ge = I.genv_stack[-1] or {}
+            gv = ge.get(et["name"])
+            if gv is not None and "ty" in gv:
+                et = I.f.types[gv["ty"]]
         cap = vec_cap(I, t)
         if et["k"] == "int" and et["w"] == 8:
             return VSeq(("empty",), cap)
@@ -835,7 +857,7 @@ def default_of(I, ty):
     return VOpaque("default:" + txt, ty)
 
 
-@ext("std::option::Option<T>::map", "core::option::Option<T>::map")
+@ext("core:Option<T>::map")
 def h_opt_map(I, st, callee, target, args, ctx):
     v, f = args
     if isinstance(v, VAdt) and v.adt == OPTION:
@@ -851,7 +873,7 @@ def h_opt_map(I, st, callee, target, args, ctx):
     raise Unanalysable("Option::map on %r" % (v,))
 
 
-@ext("std::option::Option<T>::is_some", "std::option::Option<T>::is_none")
+@ext("core:Option<T>::is_some", "core:Option<T>::is_none")
 def h_is_some(I, st, callee, target, args, ctx):
     v = deref(I, st, args[0])
     neg = target["def"].endswith("is_none")
@@ -868,7 +890,7 @@ def panic_obligation(I, st, ctx, kind, ok, detail=None):
     I.obligation(st, ctx["body"], ctx["bb"], kind, t.get("loc"), t.get("macros", []), ok, detail)
 
 
-@ext("std::option::Option<T>::unwrap", "std::option::Option<T>::expect", contract="pre")
+@ext("core:Option<T>::unwrap", "core:Option<T>::expect", contract="pre")
 def h_opt_unwrap(I, st, callee, target, args, ctx):
     v = args[0]
     if isinstance(v, VAdt) and v.adt == OPTION:
@@ -878,7 +900,7 @@ def h_opt_unwrap(I, st, callee, target, args, ctx):
     return [(st, VOpaque("unwrap"))]
 
 
-@ext("std::result::Result<T, E>::unwrap", "std::result::Result<T, E>::expect", contract="pre")
+@ext("core:Result<T, E>::unwrap", "core:Result<T, E>::expect", contract="pre")
 def h_res_unwrap(I, st, callee, target, args, ctx):
     v = args[0]
     if isinstance(v, VAdt) and v.adt == RESULT:
@@ -888,7 +910,7 @@ def h_res_unwrap(I, st, callee, target, args, ctx):
     return [(st, VOpaque("unwrap"))]
 
 
-@ext("std::result::Result<T, E>::map")
+@ext("core:Result<T, E>::map")
 def h_res_map(I, st, callee, target, args, ctx):
     v, f = args
     if isinstance(v, VAdt) and v.adt == RESULT:
@@ -898,7 +920,7 @@ def h_res_map(I, st, callee, target, args, ctx):
     raise Unanalysable("Result::map on %r" % (v,))
 
 
-@ext("std::result::Result<T, E>::map_err")
+@ext("core:Result<T, E>::map_err")
 def h_res_map_err(I, st, callee, target, args, ctx):
     v, f = args
     if isinstance(v, VAdt) and v.adt == RESULT:
@@ -908,7 +930,7 @@ def h_res_map_err(I, st, callee, target, args, ctx):
     raise Unanalysable("Result::map_err on %r" % (v,))
 
 
-@ext("std::result::Result<T, E>::ok")
+@ext("core:Result<T, E>::ok")
 def h_res_ok(I, st, callee, target, args, ctx):
     v = args[0]
     if isinstance(v, VAdt) and v.adt == RESULT:
@@ -956,7 +978,7 @@ def h_size_of(I, st, callee, target, args, ctx):
     raise Unanalysable("size_of " + t["text"])
 
 
-@ext("i32::leading_zeros", "u32::leading_zeros", "u8::leading_zeros", "u16::leading_zeros", "u64::leading_zeros", "usize::leading_zeros")
+@ext("core:i32::leading_zeros", "core:u32::leading_zeros", "core:u8::leading_zeros", "core:u16::leading_zeros", "core:u64::leading_zeros", "core:usize::leading_zeros")
 def h_leading_zeros(I, st, callee, target, args, ctx):
     from .interp import cell_const
     v = args[0]
@@ -969,8 +991,9 @@ def h_leading_zeros(I, st, callee, target, args, ctx):
             continue
         if cc == 1:
             return [(st, mk_const(n, 32, False))]
-        # unknown cell: split when it is the top bit of its atom, else an opaque count
-        if isinstance(c, tuple) and not isinstance(c[0], str):
+        # unknown cell: split when it is the first cell and the top bit of its atom (the only
+        # question asked in practice is "is the sign bit set"), else an opaque count
+        if n == 0 and isinstance(c, tuple) and not isinstance(c[0], str):
             atom, i = c
             cur = st.aset(atom)
             hi = cur.max()
@@ -1102,18 +1125,18 @@ def h_replace(I, st, callee, target, args, ctx):
 
 # ---- slices, iterators -------------------------------------------------------------------------
 
-@ext("[T]::len")
+@ext("core:[T]::len")
 def h_slice_len(I, st, callee, target, args, ctx):
     return [(st, I.len_of(st, args[0]))]
 
 
-@ext("[T]::is_empty")
+@ext("core:[T]::is_empty")
 def h_slice_is_empty(I, st, callee, target, args, ctx):
     l = lin_of(st, I.len_of(st, args[0]))
     return [(st, I.cmp(st, "Eq", l, Lin.const(0)))]
 
 
-@ext("[T]::iter", "core::iter::traits::collect::IntoIterator::into_iter")
+@ext("core:[T]::iter", "core::iter::traits::collect::IntoIterator::into_iter")
 def h_iter(I, st, callee, target, args, ctx):
     v = deref(I, st, args[0])
     if isinstance(v, VSlice):
@@ -1128,7 +1151,7 @@ def h_iter(I, st, callee, target, args, ctx):
 
 
 @ext("core::ops::deref::Deref::deref", "core::ops::deref::DerefMut::deref_mut", "core::convert::AsRef::as_ref",
-     "std::vec::Vec<T, A>::as_slice", "core::borrow::Borrow::borrow")
+     "alloc:Vec<T, A>::as_slice", "core::borrow::Borrow::borrow")
 def h_deref(I, st, callee, target, args, ctx):
     r = args[0]
     v = deref(I, st, r)
@@ -1147,10 +1170,11 @@ def h_deref(I, st, callee, target, args, ctx):
 
 # ---- formatting (opaque, total) ----------------------------------------------------------------
 
-for _k in ["alloc::fmt::format", "core::fmt::rt::Argument<'_>::new_display", "core::fmt::rt::Argument<'_>::new_debug",
-           "core::fmt::rt::Argument<'_>::new_lower_hex", "std::fmt::Arguments<'a>::new", "core::hint::must_use",
-           "alloc::string::ToString::to_string", "std::fmt::Arguments<'a>::new_const",
-           "std::fmt::Arguments<'a>::from_str", "std::fmt::Arguments<'a>::from_str_nonconst"]:
+for _k in ["alloc::fmt::format", "core:Argument<'_>::new_display", "core:Argument<'_>::new_debug",
+           "core:Argument<'_>::new_lower_hex", "core:Argument<'_>::new_upper_hex", "core:Arguments<'a>::new", "core::hint::must_use",
+           "core:Arguments<'a>::new_const", "core:Arguments<'a>::from_str", "core:Arguments<'a>::from_str_nonconst",
+           "core:Formatter<'a>::write_str", "core:Formatter<'a>::write_fmt", "nom:Error<I>::new",
+           "nom::error::ParseError::from_error_kind", "nom::error::ParseError::append", "nom::traits::ErrorConvert::convert"]:
     def _h(I, st, callee, target, args, ctx, _k=_k):
         dest = ctx["term"]["dest"]
         ty = ctx["body"]["locals"][dest["l"]] if not dest["p"] else None
@@ -1175,14 +1199,14 @@ def h_from_utf8(I, st, callee, target, args, ctx):
     return [(s1, mk_ok(VStr(term))), (s2, mk_err(VOpaque("Utf8Error")))]
 
 
-@ext("str::trim_start", "str::trim_end", "str::trim")
+@ext("core:str::trim_start", "core:str::trim_end", "core:str::trim")
 def h_trim(I, st, callee, target, args, ctx):
     v = deref(I, st, args[0])
     name = target["def"].rsplit("::", 1)[1]
     return [(st, VStr((name, v.term)))]
 
 
-@ext("str::trim_end_matches", "str::trim_start_matches", "str::trim_matches")
+@ext("core:str::trim_end_matches", "core:str::trim_start_matches", "core:str::trim_matches")
 def h_trim_matches(I, st, callee, target, args, ctx):
     v = deref(I, st, args[0])
     pat = args[1]
@@ -1191,7 +1215,7 @@ def h_trim_matches(I, st, callee, target, args, ctx):
     return [(st, VStr((name, v.term, pk)))]
 
 
-@ext("alloc::string::ToString::to_string", "alloc::borrow::ToOwned::to_owned", "str::to_string", "str::to_owned")
+@ext("alloc::string::ToString::to_string", "alloc::borrow::ToOwned::to_owned", "alloc:str::to_string", "alloc:str::to_owned")
 def h_to_string(I, st, callee, target, args, ctx):
     v = deref(I, st, args[0])
     if isinstance(v, VStr):
@@ -1229,7 +1253,7 @@ def h_from_elem(I, st, callee, target, args, ctx):
     raise Unanalysable("vec![x; n] with x != 0")
 
 
-@ext("std::vec::Vec<T, A>::extend_from_slice")
+@ext("alloc:Vec<T, A>::extend_from_slice")
 def h_extend(I, st, callee, target, args, ctx):
     r, sl = args
     v = I.read_ref(st, r)
@@ -1250,7 +1274,7 @@ def seq_concat(a, b):
     return ("concat", a, b)
 
 
-@ext("heapless::vec::Vec<T, N>::extend_from_slice")
+@ext("heapless:Vec<T, N>::extend_from_slice")
 def h_extend_heapless(I, st, callee, target, args, ctx):
     r, sl = args
     v = I.read_ref(st, r)
@@ -1268,20 +1292,24 @@ def h_extend_heapless(I, st, callee, target, args, ctx):
     raise Unanalysable("heapless extend_from_slice %r %r" % (v, s))
 
 
-@ext("std::vec::Vec<T, A>::push")
+@ext("alloc:Vec<T, A>::push")
 def h_push(I, st, callee, target, args, ctx):
     r, x = args
     v = I.read_ref(st, r)
+    if isinstance(v, VSeq) and v.term == ("empty",):
+        v = VList((), v.cap)
     if isinstance(v, VList):
         I.write_loc(st, r.cell, r.path, VList(v.items + (x,), v.cap))
         return [(st, UNIT)]
     raise Unanalysable("push on %r" % (v,))
 
 
-@ext("heapless::vec::Vec<T, N>::push")
+@ext("heapless:Vec<T, N>::push")
 def h_push_heapless(I, st, callee, target, args, ctx):
     r, x = args
     v = I.read_ref(st, r)
+    if isinstance(v, VSeq) and v.term == ("empty",):
+        v = VList((), v.cap)
     if isinstance(v, VList):
         if len(v.items) >= v.cap:
             st.event("capacity_err", "push", v.cap)
@@ -1291,10 +1319,12 @@ def h_push_heapless(I, st, callee, target, args, ctx):
     raise Unanalysable("heapless push on %r" % (v,))
 
 
-@ext("heapless::vec::Vec<T, N>::push_unchecked", contract="pre")
+@ext("heapless:Vec<T, N>::push_unchecked", contract="pre")
 def h_push_unchecked(I, st, callee, target, args, ctx):
     r, x = args
     v = I.read_ref(st, r)
+    if isinstance(v, VSeq) and v.term == ("empty",):
+        v = VList((), v.cap)
     if isinstance(v, VList):
         okk = len(v.items) < v.cap
         panic_obligation(I, st, ctx, "push_unchecked capacity", okk, None if okk else "vector full")
@@ -1303,14 +1333,14 @@ def h_push_unchecked(I, st, callee, target, args, ctx):
     raise Unanalysable("push_unchecked on %r" % (v,))
 
 
-@ext("heapless::vec::Vec<T, N>::new")
+@ext("heapless:Vec<T, N>::new")
 def h_heapless_new(I, st, callee, target, args, ctx):
     dest = ctx["term"]["dest"]
     ty = ctx["body"]["locals"][dest["l"]]
     return [(st, default_of(I, ty))]
 
 
-@ext("heapless::vec::Vec<T, N>::resize")
+@ext("heapless:Vec<T, N>::resize")
 def h_heapless_resize(I, st, callee, target, args, ctx):
     r, n, x = args
     v = I.read_ref(st, r)
